@@ -35,6 +35,12 @@ Proof. intros <-. apply firstn_app_exact. Qed.
 Lemma skipn_app_len {A} n (a b : list A) : length a = n -> skipn n (a ++ b) = b.
 Proof. intros <-. apply skipn_app_exact. Qed.
 
+Lemma skipn_skipn' {A} : forall a b (l : list A), skipn a (skipn b l) = skipn (b + a) l.
+Proof.
+  intros a b. induction b as [|b IH]; intros l; [reflexivity|].
+  destruct l as [|x l]; [cbn; apply skipn_nil|]. cbn [skipn Nat.add]. apply IH.
+Qed.
+
 Section Cbc.
   Variable E D : list N -> list N -> list N.
   Hypothesis Elen : forall k b, length (E k b) = 16%nat.
@@ -193,7 +199,7 @@ Section Aes.
     assert (Hs : length (skipn real c) = dlen ma) by (rewrite skipn_length; unfold real; lia).
     assert (Hf : length (firstn real c) = real) by (apply firstn_length_le; unfold real; lia).
     assert (Htail : skipn 20 (cbc_dec D ck (real / 16) ivd (firstn real c)) =
-                    skipn 4 (skipn 16 (cbc_dec D ck (real / 16) ivd (firstn real c)))) by (rewrite skipn_skipn; reflexivity).
+                    skipn 4 (skipn 16 (cbc_dec D ck (real / 16) ivd (firstn real c)))) by (rewrite skipn_skipn'; reflexivity).
     assert (Hind : skipn 16 (cbc_dec D ck (real / 16) ivd (firstn real c)) =
                    skipn 16 (cbc_dec D ck (real / 16) zero16 (firstn real c)))
       by (apply (cbc_dec_iv_indep D Dlen); [exact Hiv|apply repeat_length]).
@@ -237,28 +243,26 @@ Section Aes.
     pose proof (aes_total_facts (length p)) as (Hm & Hge & Hnb & _).
     rewrite app_length, hmac_len, aes_body_length.
     replace (aes_total (length p) + dlen ma - dlen ma)%nat with (aes_total (length p)) by lia.
-    rewrite <- (aes_body_length ck iv p) at 4 5.
-    rewrite firstn_app_exact, skipn_app_exact.
+    rewrite (firstn_app_len (aes_total (length p))) by apply aes_body_length.
+    rewrite (skipn_app_len (aes_total (length p))) by apply aes_body_length.
     repeat split; try lia.
     apply aes_open_body; assumption.
   Qed.
 
   (* an accepted plaintext never extends past the decrypted bytes *)
-  Lemma aes_open_in_range ck body m : aes_open ck body = Some m ->
+  Lemma aes_open_in_range ck body m : (20 <= length body)%nat -> aes_open ck body = Some m ->
     exists size, (size + 20 <= length body)%nat /\
       m = firstn size (skipn 20 (cbc_dec D ck (length body / 16) zero16 body)).
   Proof.
-    unfold aes_open, aes_open_tail.
+    intros Hb. unfold aes_open, aes_open_tail.
     set (tail := skipn 16 (cbc_dec D ck (length body / 16) zero16 body)).
     destruct (N.ltb_spec (N.of_nat (length body - 16 - 4)) (le_dec (firstn 4 tail))) as [H|H]; [discriminate|].
-    intros Hm. injection Hm as <-. exists (N.to_nat (le_dec (firstn 4 tail))).
-    split.
-    - destruct (Nat.le_gt_cases 20 (length body)) as [Hb|Hb]; [lia|].
-      (* fewer than 20 bytes: size must be 0, but then nothing is read either; still in range needs 20 <= length *)
-      exfalso. revert H. replace (length body - 16 - 4)%nat with 0%nat by lia. cbn. intros H.
-      assert (le_dec (firstn 4 tail) = 0) by lia. clear H. lia.
-    - unfold tail. rewrite skipn_skipn. reflexivity.
-  Abort.
+    intros Hm. exists (N.to_nat (le_dec (firstn 4 tail))).
+    split; [lia|].
+    assert (Hk : skipn 20 (cbc_dec D ck (length body / 16) zero16 body) = skipn 4 tail)
+      by (unfold tail; rewrite skipn_skipn'; reflexivity).
+    rewrite Hk. congruence.
+  Qed.
 
   Lemma aes_encrypt_next_iv ck ma mk iv p :
     snd (aes_encrypt hmac E ck ma mk iv p) =
